@@ -63,6 +63,7 @@ func c20NewFile(rng *Rng, name string) *c20Node {
 	if nd.kind != "fail" && rng.Chance(12) {
 		nd.kind, nd.class, nd.text = c20GenSchedules(rng, nd.kind == "invalid")
 	}
+	c20MaybeLink(rng, nd)
 	return nd
 }
 
@@ -156,6 +157,9 @@ func (e *c20Env) change(rng *Rng, workingDir, logPath string, old []*c20Node, st
 			what = append(what, "rm-file-"+depth)
 		case op < 70: // mode bits only: an execute bit appears or disappears
 			nd := (*d.kids)[PickOne(rng, filesIdx)]
+			if nd.link { // the mode bits of a link cannot be changed
+				continue
+			}
 			var pool []os.FileMode
 			for _, m := range c20Modes {
 				if (m&0o111 != 0) != (nd.mode&0o111 != 0) {
@@ -179,7 +183,9 @@ func (e *c20Env) change(rng *Rng, workingDir, logPath string, old []*c20Node, st
 			nw := c20NewFile(rng, nd.name)
 			nd.kind, nd.variant, nd.class, nd.text = nw.kind, nw.variant, nw.class, nw.text
 			p := filepath.Join(abs, nd.name)
-			_ = os.Chmod(p, 0o600)
+			if !nd.link {
+				_ = os.Chmod(p, 0o600)
+			}
 			if err := e.writeFile(p, relOf(nd.name), logPath, nd); err != nil {
 				return nil, "", err
 			}
@@ -265,7 +271,8 @@ func (e *c20Env) runFixedStarts(r *Run, c *Case, rootName string, first, second 
 		c.Inconcl = "mkdir: " + err.Error()
 		return
 	}
-	_ = os.MkdirAll(filepath.Join(base, "tmp"), 0o755)
+	tmpName := c20TmpName(c, rootName, first)
+	_ = os.MkdirAll(c20TmpDir(base, tmpName), 0o755)
 	defer os.RemoveAll(base)
 	c20SortDeep(first)
 	c20SortDeep(second)
@@ -273,14 +280,14 @@ func (e *c20Env) runFixedStarts(r *Run, c *Case, rootName string, first, second 
 		c.Inconcl = "materialise: " + err.Error()
 		return
 	}
-	if !e.start(r, c, base, rootName, first, true) {
+	if !e.start(r, c, base, rootName, tmpName, first, true) {
 		return
 	}
 	if err := e.bringTo(workingDir, "", logPath, first, second); err != nil {
 		c.Inconcl = "change: " + err.Error()
 		return
 	}
-	e.start(r, c, base, rootName, second, true)
+	e.start(r, c, base, rootName, tmpName, second, true)
 }
 
 func c20SortDeep(nodes []*c20Node) {
@@ -322,8 +329,12 @@ func (e *c20Env) bringTo(dir, rel, logPath string, from, to []*c20Node) error {
 				return err
 			}
 		case !n.dir && !o.dir:
-			if n.kind != o.kind || n.variant != o.variant || n.text != o.text {
-				_ = os.Chmod(p, 0o600)
+			if n.kind != o.kind || n.variant != o.variant || n.text != o.text || n.link != o.link {
+				if !o.link {
+					_ = os.Chmod(p, 0o600)
+				} else {
+					_ = os.Remove(p)
+				}
 				if err := e.writeFile(p, r, logPath, n); err != nil {
 					return err
 				}
